@@ -394,7 +394,7 @@ def run(tier: str, seed: int) -> int:
                                 first = False
         chk.note(f"replay {name}: {tot_e} (state, operation) pairs executed over all classes, mismatches={tot_m}")
         if not c["DtSet"]:
-            functional_replay(chk, g, rng, 60 if tier == "quick" else 600)
+            functional_replay(chk, g, rng, 150 if tier == "quick" else 600)
 
     chk.note(f"phase replay: {_t.time() - t0:.1f}s")
     t0 = _t.time()
@@ -416,7 +416,7 @@ def run(tier: str, seed: int) -> int:
     chk.note(f"canary: deviating replay rejected ({len(mism)} mismatches)")
 
     # ---- B
-    ntr = 96 if tier == "quick" else 1200
+    ntr = 240 if tier == "quick" else 1200
     traces = random_traces(rng, ntr, steps=30 if tier == "quick" else 40)
     if not traces:
         chk.note("dyadic recipe unavailable: no traces")
